@@ -369,13 +369,15 @@ def _check_nsamples(prog: Program, res: Result, f: FuncInfo) -> None:
     for c in calls_in_body(f.node):
         d = dotted(c.func) or ""
         cname = d.split(".")[-1]
-        is_container = cname in CONTAINERS or d in ("cls", "self.__class__")
+        is_container = cname in CONTAINERS or d in ("cls", "self.__class__", "self._derived")
         if not is_container or len(c.args) < 2:
             continue
         if d == "cls" and (f.cls is None or f.cls.name not in CONTAINERS):
             continue
-        if d == "self.__class__" and (f.cls is None or f.cls.name not in ({"BaseBlock"} | CONTAINERS)):
+        if d in ("self.__class__", "self._derived") and (f.cls is None or f.cls.name not in ({"BaseBlock"} | CONTAINERS)):
             continue
+        if d == "self._derived":
+            cname = "__class__"   # the block's own kind, rebuilt around new data
         arr, hexpr = c.args[0], c.args[1]
         kind, info = _array_length_class(prog, f, flow, arr, c)
         if kind == "same":
@@ -678,9 +680,72 @@ def _scaling_and_dm(prog: Program, res: Result) -> None:
         (res.ok if ok else res.bad)("R6", f, ctor[0] if ctor else f.node, "the block records the DM it was dedispersed at" if ok else
                                     "the dedispersed block does not record its DM", key=key, construct=qual)
 
+    # the DM stays with the data through every derived block and into the file (F40)
+    blk = prog.cls("sigpyproc.block", "FilterbankBlock")
+    base_blk = prog.cls("sigpyproc.block", "BaseBlock")
+    for m in blk.methods.values():
+        for c in calls_in_body(m.node):
+            if (dotted(c.func) or "") != "FilterbankBlock":
+                continue
+            key = f"FilterbankBlock.{m.name}:ctor-dm"
+            arg = c.args[2] if len(c.args) > 2 else next((k.value for k in c.keywords if k.arg == "dm"), None)
+            ok = arg is not None and norm(arg) in ("dm", "self.dm", "self._dm")
+            (res.ok if ok else res.bad)("R6", m, c, "the new block is given a DM (the one applied here, or this block's)" if ok else
+                                        "a block built from this block's data is constructed without a DM: it reports DM 0 although its data are "
+                                        "dedispersed", key=key)
+    for m in base_blk.methods.values():
+        for c in calls_in_body(m.node):
+            if norm(c.func) == "self.__class__" and m.name != "_derived":
+                res.bad("R6", m, c, f"BaseBlock.{m.name} rebuilds the block with self.__class__(data, header): what a subclass keeps beside the header "
+                        "(the DM of a FilterbankBlock, the DM axis of a DMTBlock) is lost", key=f"BaseBlock.{m.name}:rebuild")
+            elif norm(c.func) == "self._derived":
+                res.ok("R6", m, c, "derived block built through _derived (subclasses carry their own attributes over)", key=f"BaseBlock.{m.name}:rebuild")
+    dv = blk.methods.get("_derived")
+    okd = dv is not None and any((dotted(c.func) or "") == "FilterbankBlock" for c in calls_in_body(dv.node))
+    (res.ok if okd else res.bad)("R6", dv, dv.node if dv else blk.node, "FilterbankBlock._derived passes this block's DM on" if okd else
+                                 "FilterbankBlock does not override _derived: normalise / pad_samples drop the DM", construct="_derived", key="FilterbankBlock._derived",
+                                 where="sigpyproc.block::FilterbankBlock")
+    tf = blk.methods["to_file"]
+    ups = [(c, d) for c, d, k2, _ in _header_updates(tf) if d is not None]
+    okf = any(norm(d.get("dm", ast.Constant(None))) in ("self.dm", "self._dm") for c, d in ups)
+    (res.ok if okf else res.bad)("R6", tf, ups[0][0] if ups else tf.node, "to_file records the block's DM as the file's reference DM" if okf else
+                                 "to_file writes the header's dm, not the DM of the block: a dedispersed block is written with refdm 0", key="FilterbankBlock.to_file:dm")
+    # a valid-samples product begins after the samples that leading channels lack (F41)
+    for qual, kern, dname in (("FilterbankBlock.dedisperse", "roll_block_valid", "delays"), ("FilterbankBlock.dmt_transform", "dmt_block_valid", "dm_delays")):
+        f = prog.func("sigpyproc.block", qual)
+        flow = flow_of(f)
+        from ..normalform import canon, strip_ordinals
+        from ..pathcond import path_conditions
+        ok = False
+        why = "no header update with tstart"
+        for c, d, k2, _ in _header_updates(f):
+            if not d or "tstart" not in d:
+                continue
+            ex = flow.expand(d["tstart"], flow.cfg.node_for(c))
+            txt = strip_ordinals(canon(ex))
+            D = "self.header.get_dmdelays"
+            # the lead is chosen by the very flag that selects the valid-samples kernel
+            forms = [f"max(0, -1*int(np.min({dname})))", f"max(0, -1*np.min({dname}))", f"max(0, int(np.max(-1*{dname})))", f"max(0, -1*int({dname}.min()))"]
+            leads = [strip_ordinals(canon(flow.expand(ast.parse(t, mode="eval").body, flow.cfg.node_for(c)))) for t in forms]
+            ok = any(l in txt for l in leads) and "only_valid_samples" in txt and txt.startswith("self.header.mjd_after_nsamps(")
+            why = f"tstart is `{norm(d['tstart'])}`"
+        (res.ok if ok else res.bad)("R2", f, f.node, f"with only_valid_samples the product's tstart is advanced by max(0, -min delay), the first column {kern} keeps"
+                                    if ok else f"{qual}: {why}; the valid-samples product begins max(0, -min delay) samples after the block, "
+                                    "so tstart must be advanced by that", construct=qual, key=f"{qual}:valid-tstart")
 
 B = "sigpyproc/base.py"
 MUTANTS = [
+    {"id": "c08-revert-F40-downsample", "file": "sigpyproc/block.py", "expect": "C08.R6",
+     "old": "        return FilterbankBlock(new_ar, self.header.new_header(changes), self.dm)\n", "new": "        return FilterbankBlock(new_ar, self.header.new_header(changes))\n"},
+    {"id": "c08-revert-F40-tofile", "file": "sigpyproc/block.py", "expect": "C08.R6",
+     "old": "        updates = {\"nbits\": 32, \"dm\": self.dm}\n", "new": "        updates = {\"nbits\": 32}\n"},
+    {"id": "c08-revert-F40-normalise", "file": "sigpyproc/block.py", "expect": "C08.R6",
+     "old": "        return self._derived(zscore_re.data, self.header.new_header())\n", "new": "        return self.__class__(zscore_re.data, self.header.new_header())\n"},
+    {"id": "c08-revert-F41", "file": "sigpyproc/block.py", "expect": "C08.R2",
+     "old": "            new_ar = kernels.roll_block_valid(self.data, -delays)\n            # The valid region begins after the samples that leading channels lack\n            lead = max(0, -int(np.min(delays)))\n",
+     "new": "            new_ar = kernels.roll_block_valid(self.data, -delays)\n            lead = 0\n"},
+    {"id": "c08-valid-lead-from-max", "file": "sigpyproc/block.py", "expect": "C08.R2",
+     "old": "            lead = max(0, -int(np.min(dm_delays)))\n", "new": "            lead = max(0, int(np.max(dm_delays)))\n"},
     {"id": "c08-revert-F39-guard", "file": "sigpyproc/readers.py", "expect": "C08.R1",
      "old": "        if chan_start < 0 or nchans < 1 or chan_start + nchans > self.header.nchans:\n            msg = f\"requested block is out of range: fch1={fch1}, nchans={nchans}\"\n            raise ValueError(msg)\n        if start < 0 or start + nsamps > self.header.nsamples:\n            msg = f\"requested block is out of range: start={start}, nsamps={nsamps}\"\n            raise ValueError(msg)\n\n        self._file.seek",
      "new": "        if fch1 > self.header.fch1 or nchans > self.header.nchans:\n            msg = f\"requested block is out of range: fch1={fch1}, nchans={nchans}\"\n            raise ValueError(msg)\n        if start < 0 or start + nsamps > self.header.nsamples:\n            msg = f\"requested block is out of range: start={start}, nsamps={nsamps}\"\n            raise ValueError(msg)\n\n        self._file.seek"},
